@@ -119,6 +119,10 @@ type world struct {
 	dMax    time.Duration // the largest back-off delay the client can apply (as configured)
 	nMirror int
 	cfaults []ClassFault
+	// hosts named by the URLs of a descriptor (foreign layer): not part of the configured topology,
+	// so clauses 4 and 5 (which reason about the client's per-host state) leave them alone
+	extNames []string
+	extSpec  map[string]HostSpec
 	dupFirst bool // the first mirror is listed twice in the configuration
 	l2      bool // RegClient layer: bodies may be consumed long after the response arrived
 }
@@ -130,6 +134,9 @@ func (w *world) isMirror(h string) bool { return h != upName && strings.HasPrefi
 // letterAt returns the word letter that applies to the per-host ordinal.
 func (w *world) letterAt(host string, hostSeq int) Letter {
 	s, ok := w.spec[host]
+	if !ok {
+		s, ok = w.extSpec[host]
+	}
 	if !ok {
 		return Letter{K: "ok"}
 	}
@@ -148,8 +155,15 @@ func (w *world) letterAt(host string, hostSeq int) Letter {
 // realm has to change with every challenge.
 func (w *world) installFaults() {
 	m := w.m
-	for _, n := range w.names {
-		s := w.spec[n]
+	all := append(append([]string{}, w.names...), w.extNames...)
+	specOf := func(n string) HostSpec {
+		if s, ok := w.spec[n]; ok {
+			return s
+		}
+		return w.extSpec[n]
+	}
+	for _, n := range all {
+		s := specOf(n)
 		if s.Tail != nil && !(s.Tail.K == "st" && s.Tail.S == 401) {
 			if f, ok := letterFault(*s.Tail); ok {
 				f.Host = n
@@ -168,8 +182,8 @@ func (w *world) installFaults() {
 			m.AddFault(f)
 		}
 	}
-	for _, n := range w.names {
-		s := w.spec[n]
+	for _, n := range all {
+		s := specOf(n)
 		for i, l := range s.Word {
 			if l.K == "st" && l.S == 401 {
 				continue
@@ -375,8 +389,12 @@ func (w *world) classify(e *rm.Entry) entryClass {
 		if l.K != "trunc" {
 			return entryClass{kind: "other"}
 		}
-		if e.Class == "blob-get" {
-			n, ok := w.blobLen[e.Ref]
+		if e.Class == "blob-get" || e.Class == "external-get" {
+			key := e.Ref
+			if e.Class == "external-get" {
+				key = "ext:" + e.Path
+			}
+			n, ok := w.blobLen[key]
 			if !ok {
 				return entryClass{kind: "other"}
 			}
@@ -456,6 +474,8 @@ func dimClasses(c Case) []string {
 	add(p.ByTag, "referrers-by-tag")
 	add(p.ArtifactType, "referrers-artifact-type")
 	add(p.RepoLimit > 0 || p.Last != "", "list-limit-last")
+	add(p.ExtURLs > 0, fmt.Sprintf("external-urls:%d", p.ExtURLs))
+	add(p.ExtDead != "", "external-first-url-dead:"+p.ExtDead)
 	return out
 }
 
